@@ -18,8 +18,8 @@ LEVEL = "fault_enumeration"
 TECHNIQUE = "fault injection: writer child killed with SIGKILL right after flush()/close()/with-exit returned; whole-file snapshot taken in the child compared with snapshots after reopening RO and RW in the parent; un-flushed control children prove observability"
 RULE = ("Case = one (history, crash point) pair: a random history of 30-100 valid operations grown with array appends "
         "(1-20 appends of up to 4000 elements, compressed and uncompressed) has a flush/close point after ~8% of the "
-        "operations and at the end; EVERY such point of a history is a crash point and gets its own child, killed by "
-        "SIGKILL immediately after the call returned.  Distinct by (kind of point flush|close|with, file compression, "
+        "operations (dense histories: after 30-60%, so that often a single data write / append / deletion / link change lies between two flushes; 30% of the histories run with automatic timestamps off) and at the end; EVERY such point of a history is a crash point and gets its own child, killed by "
+        "SIGKILL immediately after the call returned (quick tier: at most 6 spread points per history are killed; all are flushed).  Distinct by (kind of point flush|close|with, file compression, "
         "operation kinds executed since the previous point, grown-by bucket); trivial = none.")
 ASSUMPTIONS = ["a process kill (SIGKILL) is what is injected, not power loss: data handed to the operating system counts as on disk",
                "the snapshot S is taken immediately before the flush/close call (reads do not modify the file)",
@@ -31,7 +31,7 @@ TIMEOUT = {"quick": 1500, "thorough": 7200}
 
 def plan(tier, seed):
     n = 2 if tier == "quick" else 40
-    return [{"i": i, "histories": n, "big": tier == "thorough"} for i in range(NSHARDS)]
+    return [{"i": i, "histories": n, "big": tier == "thorough", "cap": 6 if tier == "quick" else 30} for i in range(NSHARDS)]
 
 
 # ------------------------------------------------------------------------------------------
@@ -49,11 +49,19 @@ def child_main(argv):
     rng = ctx.rng("c17", case)
     comp = rng.choice(list(nix.Compression))
     L = rng.randint(30, 100)
+    # flush density: sparse (many operations of all kinds between two points) or dense (often a single data write,
+    # append, deletion or link change between two flushes - operations that touch no timestamp)
+    pflush = rng.choice([0.08, 0.08, 0.3, 0.6])
+    if pflush > 0.1:
+        L = rng.randint(20, 45)
+    auto_off = rng.random() < 0.3
     points = []
     since = set()
     grown = 0
     f = nix.File.open(path, nix.FileMode.Overwrite, compression=comp)
     B = gen.Builder(nix, f, rng)
+    if auto_off:
+        f.auto_update_timestamps = False
     k = 0
     for i in range(L):
         name, exc = B.step()
@@ -74,12 +82,13 @@ def child_main(argv):
                     d.append(chunk)
                     grown += len(chunk)
                 since.add("grow")
-        if rng.random() < 0.08 or i == L - 1:
+        if rng.random() < pflush or i == L - 1:
             kind = rng.choice(["flush", "flush", "close", "with"])
             if k == point:
                 snap = snapshot.snapshot(nix, B.f)
                 rec = {"table": snap.table, "kind": kind, "comp": str(comp), "since": sorted(since), "grown": grown,
-                       "entities": len(snap.table), "step": i}
+                       "entities": len(snap.table), "step": i, "flush_density": pflush, "auto_timestamps": not auto_off,
+                       "flushes_before": sum(1 for x in points if x == "flush")}
                 if not control:
                     if kind == "flush":
                         B.f.flush()
@@ -98,6 +107,8 @@ def child_main(argv):
             if kind != "flush":
                 B.f.close()
                 B.f = nix.File.open(path, nix.FileMode.ReadWrite, compression=comp)
+                if auto_off:
+                    B.f.auto_update_timestamps = False
             else:
                 B.f.flush()
     with open(side, "w") as fh:
@@ -178,7 +189,13 @@ def run_shard(spec, ctx):
             continue
         npoints = len(rec["points"])
         ctx.count("crash_points_enumerated", npoints)
-        for pt in range(npoints):
+        pts = list(range(npoints))
+        cap = spec.get("cap", 6)
+        if npoints > cap:       # dense histories: a spread sample of the points is killed (every point is still flushed in the child)
+            r = ctx.rng("c17pts", k)
+            pts = sorted(set(r.sample(range(npoints - 1), cap - 1)) | {npoints - 1})
+            ctx.count("crash_points_not_killed", npoints - len(pts))
+        for pt in pts:
             rep = {"case": k, "shard": ctx.shard, "point": pt, "big": spec["big"]}
             rc, rec2, out = spawn(path, side, ctx.seed, ctx.shard, k, pt, False, spec["big"])
             if rc != -signal.SIGKILL or rec2 is None or "table" not in rec2:
@@ -187,8 +204,9 @@ def run_shard(spec, ctx):
             judge(ctx, nix, path, rec2, rep, False)
             ctx.count("children_killed")
             ctx.count("point:" + rec2["kind"])
-            ctx.case((rec2["kind"], rec2["comp"], tuple(rec2["since"]), min(rec2["grown"] // 2000, 5)),
-                     sample={"point_kind": rec2["kind"], "compression": rec2["comp"], "ops_since_previous_point": rec2["since"],
+            ctx.count("ops_since_previous_point:%s" % min(len(rec2["since"]), 5))
+            ctx.case((rec2["kind"], rec2["comp"], tuple(rec2["since"]), min(rec2["grown"] // 2000, 5), rec2.get("auto_timestamps")),
+                     sample={"flushes_before_this_point": rec2.get("flushes_before"), "automatic_timestamps": rec2.get("auto_timestamps"), "point_kind": rec2["kind"], "compression": rec2["comp"], "ops_since_previous_point": rec2["since"],
                              "elements_appended": rec2["grown"], "entities": rec2["entities"]})
         # one control per history: killed at its last point WITHOUT the flush
         if npoints:
